@@ -6,6 +6,7 @@ mod c02;
 mod c06;
 mod c07;
 mod c09;
+mod c10;
 mod c11;
 mod c13;
 mod drive;
@@ -33,6 +34,7 @@ fn main() {
                 "C06" => c06::run(&tier),
                 "C07" => c07::run(&tier),
                 "C09" => c09::run(&tier),
+                "C10" => c10::run(&tier),
                 "C11" => c11::run(&tier),
                 "C12" => c12::run(&tier),
                 "C13" => c13::run(&tier),
@@ -40,7 +42,9 @@ fn main() {
                 "C17" => c17::run(&tier),
                 _ => { eprintln!("unknown property {id}"); std::process::exit(2) }
             };
-            std::process::exit(finish(rep));
+            let code = finish(rep);
+            drive::cleanup_scratch();
+            std::process::exit(code);
         },
         Some("m2-selftest") => std::process::exit(m2::selftest()),
         Some("replay") => {
@@ -52,6 +56,7 @@ fn main() {
                 "C06" => c06::replay(detail),
                 "C07" => c07::replay(detail),
                 "C09" => c09::replay(detail),
+                "C10" => c10::replay(detail),
                 "C11" => c11::replay(detail),
                 "C12" => c12::replay(detail),
                 "C13" => c13::replay(detail),
